@@ -149,7 +149,9 @@ def real_match(node, template, ignore):
     return out
 
 
-PATTERNS = ["{{x}}", "{{x}} + {{y}}", "{{x}} + {{x}}", "f({{x}})", "f({{x}}, {{y}})", "{{f}}({{x}})", "{{f}}({{...*}})", "f({{x*}})", "f({{x?}}, 1)", "f({{x+}})",
+FOCUS = ("f(a, 'a')\nf(1, '1')\nf(None, 'None')\nf(a.b, 'a.b')\nf(-1, '-1')\nf('a', 'a')\nf(a, a)\nf(1, 1)\nf(1, 1.0)\nf(True, 1)\n[a, 'a']\n[b, b]\n(p, 'p', p)\n(p, q, p)\n"
+         "a + 'a'\na + a\n'1' + 1\nf(x, k=x)\nf(x, k='x')\n")
+PATTERNS = ["f({{x}}, {{x}})", "f({{x}}, k={{x}})", "{{x}}", "{{x}} + {{y}}", "{{x}} + {{x}}", "f({{x}})", "f({{x}}, {{y}})", "{{f}}({{x}})", "{{f}}({{...*}})", "f({{x*}})", "f({{x?}}, 1)", "f({{x+}})",
             "f({{...*}}, {{x}}, {{...*}})", "[{{...*}}, 0, {{...?}}]", "[{{x}}, {{x}}]", "({{x}}, {{y}}, {{x}})", "{{x}} = {{y}}", "x = {{value}}",
             "{{a}}.{{b}}", "{{a}}[{{i}}]", "not {{c}}", "{{x}} if {{c}} else {{y}}", "print({{...*}})", "{{a}} < {{b}} < {{c}}", "lambda: {{x}}",
             "return {{x}}", "for {{i}} in {{it}}:\n    {{...*}}", "if {{c}}:\n    {{body*}}", "if {{c}}:\n    {{...+}}\nelse:\n    {{...+}}", "{{x}}.append({{y}})",
@@ -223,10 +225,13 @@ def match_suite(ctx):
             pass
     r.shuffle(nodes)
     nodes = nodes[: ctx.n(260, 1500)]
+    # always present: repeated-wildcard candidates where one binding is a string whose text is the other binding's source
+    focus = [n for n in ast.walk(ast.parse(FOCUS)) if isinstance(n, (ast.Call, ast.List, ast.Tuple, ast.BinOp))]
+    nodes = focus + nodes
     exported = [None] * len(nodes)
     reqs, metas = [], []
     for (t, et, ignore, origin) in templates:
-        for i, node in enumerate(r.sample(range(len(nodes)), min(len(nodes), ctx.n(60, 400)))):
+        for i, node in enumerate(list(range(len(focus))) + r.sample(range(len(focus), len(nodes)), min(len(nodes) - len(focus), ctx.n(60, 400)))):
             n = nodes[node]
             ev = exp_val(n, ignore)
             reqs.append({"suite": "match", "val": ev, "tmpl": et, "hier": hier})
@@ -348,9 +353,89 @@ def flat_oracle(ctx):
     return s
 
 
+# ---------------------------------------------------------------------------------------------- statement sequences
+
+SEQ_ATOMS = ["t = 1", "t = 2", "u = 1", "u = 2", "z = 0", "t = 1", "t = 2", "w = u"]
+
+
+def seq_block(r, depth, indent):
+    pad = "    " * indent
+    lines = []
+    for _ in range(r.choice([1, 2, 2, 3, 3, 4])):
+        x = r.random()
+        if depth == 0 or x < 0.55:
+            lines.append(pad + r.choice(SEQ_ATOMS))
+            continue
+        kind = r.choice(["if", "if", "for", "while", "with", "def", "class", "elif"])
+        head = {"if": "if c:", "for": "for i in xs:", "while": "while c:", "with": "with o:", "def": "def g():", "class": "class K:", "elif": "if c:"}[kind]
+        lines.append(pad + head)
+        lines += seq_block(r, depth - 1, indent + 1)
+        if kind == "elif":
+            lines.append(pad + "elif d:")
+            lines += seq_block(r, depth - 1, indent + 1)
+        if kind in ("if", "for", "while", "elif") and r.random() < 0.6:
+            lines.append(pad + "else:")
+            lines += seq_block(r, depth - 1, indent + 1)
+    return lines
+
+
+def seq_reference(tree, pred):
+    """line numbers of the first statement of every window of consecutive statements accepted by `pred`, over the body and
+    else blocks of modules, definitions and if / for / while / with statements"""
+    out = []
+    for node in ast.walk(tree):
+        if not isinstance(node, (ast.Module, ast.FunctionDef, ast.AsyncFunctionDef, ast.ClassDef, ast.If, ast.For, ast.While, ast.With)):
+            continue
+        for field in ("body", "orelse"):
+            block = getattr(node, field, None) or []
+            for i in range(len(block) - 1):
+                if pred(block[i], block[i + 1]):
+                    out.append(block[i].lineno)
+    return sorted(out)
+
+
+def _assign(st):
+    if isinstance(st, ast.Assign) and len(st.targets) == 1 and isinstance(st.targets[0], ast.Name):
+        return st.targets[0].id, ast.dump(st.value)
+    return None
+
+
+def sequence_oracle(ctx):
+    from pyrefact import pattern_matching
+
+    s = Suite("sequence-oracle", kind="oracle")
+    r = ctx.rng("sequence")
+    one, two = ast.dump(ast.Constant(1)), ast.dump(ast.Constant(2))
+    pats = [("{{t}} = 1\n{{t}} = 2", lambda a, b: bool(_assign(a) and _assign(b) and _assign(a)[0] == _assign(b)[0] and _assign(a)[1] == one and _assign(b)[1] == two)),
+            ("{{a}} = {{v}}\n{{b}} = {{v}}", lambda a, b: bool(_assign(a) and _assign(b) and _assign(a)[1] == _assign(b)[1]))]
+    for _ in range(ctx.n(250, 3000)):
+        src = "\n".join(seq_block(r, r.choice([1, 2, 2, 3]), 0)) + "\n"
+        try:
+            tree = ast.parse(src)
+        except SyntaxError:
+            continue
+        for pat, pred in pats:
+            s.cases += 1
+            want = seq_reference(tree, pred)
+            try:
+                got = sorted(m.lineno for m in pattern_matching.finditer(pat, src))
+            except Exception as ex:  # noqa: BLE001
+                s.disagreements.append({"pattern": pat, "source": src, "what": f"finditer raised {ex!r}"})
+                continue
+            if want:
+                s.nt([pat, src])
+            if got != want:
+                s.disagreements.append({"pattern": pat, "source": src, "real": got, "reference": want,
+                                        "what": f"statement-sequence pattern {pat!r}: finditer reports lines {got}, the occurrences are at lines {want}"})
+    s.note = ("random nestings (depth <= 3) of if/elif/else, for/else, while/else, with, def, class blocks over 8 assignment statements x 2 two-statement patterns "
+              "(a repeated name wildcard; a repeated value wildcard): finditer's start lines == every window of consecutive statements in a body or else block that fits, "
+              "with multiplicity (reference computed from the ast, independent of pyrefact)")
+    return s
+
+
 def suites(ctx):
     common.import_pyrefact()
-    return [perms_suite(ctx), match_suite(ctx), flat_oracle(ctx)]
+    return [perms_suite(ctx), match_suite(ctx), flat_oracle(ctx), sequence_oracle(ctx)]
 
 
 def match_known(d, known):
